@@ -51,8 +51,22 @@ class Gen:
         return v
 
     def box(self, dens):
-        """arbitrary stored box, unrelated to the vertices"""
+        """arbitrary stored box, unrelated to the vertices; one in five is the box of a producer
+        that never fills it (all zeros, of either sign), one in ten repeats a single value"""
+        r = self.r
+        k = r.random()
+        if k < 0.2:
+            return [fbits(r.choice((0.0, 0.0, 0.0, -0.0))) for _ in range(4)]
+        if k < 0.3:
+            v = self.coord(max(dens, 0.3), True, 'mixed')
+            return [v, v, v, v]
         return [self.coord(max(dens, 0.3), True, 'mixed') for _ in range(4)]
+
+    def rng2(self, dens):
+        """stored Z / M range: arbitrary, or left at zero by the producer"""
+        if self.r.random() < 0.2:
+            return [fbits(0.0), fbits(0.0)]
+        return [self.coord(max(dens, 0.3), True, 'mixed'), self.coord(max(dens, 0.3), True, 'mixed')]
 
     def record(self, t, dens, pool):
         """-> (model, with_m). Layout features are drawn independently per record."""
@@ -72,6 +86,8 @@ class Gen:
                 m['parts'][0][0][3] = None
             return m, with_m, feats
         m = dict(type=t, box=self.box(dens))
+        if all(b in ('0000000000000000', '8000000000000000') for b in m['box']):
+            feats.append('zeroed-box')
         if t in MULTIPOINT:
             n = r.choice([0, 1, 1, 2, 3, r.randrange(0, 9)])
             if n == 0:
@@ -98,8 +114,8 @@ class Gen:
             m['parts'] = parts
             if t in PATCH:
                 m['kinds'] = [r.randrange(0, 6) for _ in parts]
-        m['zr'] = [self.coord(max(dens, 0.3), True, 'mixed'), self.coord(max(dens, 0.3), True, 'mixed')] if t in HASZ else None
-        m['mr'] = [self.coord(max(dens, 0.3), True, 'mixed'), self.coord(max(dens, 0.3), True, 'mixed')] if carries_m(t) else None
+        m['zr'] = self.rng2(dens) if t in HASZ else None
+        m['mr'] = self.rng2(dens) if carries_m(t) else None
         if not with_m:
             m['mr'] = None
             for p in m['parts']:
